@@ -7,7 +7,8 @@ CFG = {
     "id": "C05", "harness": "c05",
     "check_vo": "theories/Check/C05.vo", "prop_vo": "theories/Properties/C05.vo",
     "prop_file": "theories/Properties/C05.v",
-    "theory_files": ["theories/Base/Bytes.v", "theories/Formats/Obj.v", "theories/Formats/ObjProofs.v"],
+    "theory_files": ["theories/Base/Bytes.v", "theories/Formats/Obj.v", "theories/Formats/ObjProofs.v",
+                     "theories/Formats/ObjText.v", "theories/Formats/ObjTextProofs.v"],
     "level_text": "Coq theorems about a line-record model of obj.WriteMeshes and obj.ReadMesh and a direct "
                   "(de-duplication-free) semantics of OBJ line lists: write/read round trip for every list of "
                   "well-formed meshes in any attribute / material-range mixture, reader correctness and load/save "
@@ -16,7 +17,8 @@ CFG = {
                   "output is judged by the direct semantics",
     "level_note": "Trusted: Coq kernel + vm_compute; hand-written model tied by differential correspondence only "
                   "(generator quality bounds it); number text (strconv formatting/parsing, float32 rounding) and "
-                  "whitespace splitting are Go-side: the harness tokenises the real text with its own tokenizer",
+                  "white space are parameters of the Coq text layer (Formats/ObjText.v: ScanLines, Fields, dispatch, corner "
+                  "tokens); raw input bytes are evaluated in Coq and must give the statements the Go reader consumed",
     "technique": "Coq proof (induction over line lists / mesh lists, simulation between reader state and direct "
                  "semantics) + vm_compute correspondence check",
     "design_ref": "DESIGN.md §4 C05, §5 entries 5, 6; notes/C05.md",
